@@ -7,6 +7,7 @@
 #define VC_H
 #include <stddef.h>
 #include <stdint.h>
+#include <limits.h>
 
 #ifdef REPLAY
 /* native: values come from witness.h (WITVAL_<name>); a name the trace did not
@@ -18,6 +19,9 @@
 #define WIT_ARR(T, name, N) T name[N]
 #endif
 
+#ifndef VC_THOROUGH
+#define VC_THOROUGH 0      /* the driver passes -DVC_THOROUGH=1 in the thorough tier */
+#endif
 typedef unsigned char uchar;
 typedef unsigned int uint;
 typedef unsigned long ulong;
